@@ -13,6 +13,8 @@ ws.mir(True)
 ws.mir(False)
 ws.runner("dev")
 ws.runner("release")
+ws.mir_bin()
+ws.repl_binary()
 ws.cleanup()
 print("setup ok")
 PY
